@@ -16,7 +16,8 @@ by `Parser.ParseValExp`).
 * `nextLex`/`lexAll`: the tokenizer restricted to what can occur in a value
   expression: punctuation, strings (`tokStringRule`), numbers (the numeric
   branch, `Martian.Lexer.numTok`), identifiers and the keyword table, ASCII
-  white space and `#` comments.  Bytes ≥ 0x80 outside a string literal are
+  white space and `#` comments; and `@include` (INCLUDE_DIRECTIVE, used by
+  `Martian.FormatFile` only: no production below the file level has it).  Bytes ≥ 0x80 outside a string literal are
   reported as invalid (the real lexer accepts Unicode white space there; the
   harness does not generate it).
 * `pExp` …: a recursive-descent reader for `exp` (goyacc generates an LALR(1)
@@ -239,6 +240,12 @@ def commentLen : Bytes → Nat
   | [] => 0
   | c :: r => if c == 0x0A then 1 else commentLen r + 1
 
+/-- `include` -/
+def sIncludeWord : Bytes := [0x69, 0x6E, 0x63, 0x6C, 0x75, 0x64, 0x65]
+/-- `@include`: the text of the token INCLUDE_DIRECTIVE (a `.reserved` token: no word of the
+keyword table starts with `@`) -/
+def sAtInclude : Bytes := 0x40 :: sIncludeWord
+
 /-- `nextToken`: the lexeme at the head of a non-empty input and its length -/
 def nextLex (b : Bytes) : Lexeme × Nat :=
   match b with
@@ -259,6 +266,10 @@ def nextLex (b : Bytes) : Lexeme × Nat :=
     else if isAlpha c || c == 0x5F then
       let w := b.takeWhile isWord
       (wordLexeme w, w.length)
+    else if c == 0x40 then
+      -- `case '@'`: `bytesPrefixString(b, "@include")`, the token INCLUDE_DIRECTIVE
+      if r.take 7 == sIncludeWord && !(r.drop 7).head?.any isWord then (.tok (.reserved sAtInclude), 8)
+      else (.invalid, 0)
     else (.invalid, 0)
 
 /-- `Lex` until the end of the input: the token sequence the parser is fed, or
